@@ -4,11 +4,12 @@ COQ_TARGETS = ["Props/Properties_C13.vo", "Extract/ExtractPacked.vo"]
 PROPS_FILES = ["Props/Properties_C13.v"]
 RUNS = [dict(name="packed", harness="c13", driver="packed", model_ml="packed_model")]
 EXPLANATION = ("Theorems over all byte strings / all oracles about the Gallina model of internal/packed "
-               "(Pack, Unpack, Reader.ReadWord) and the grammar decoder PackSpec; the model is tied to the code by "
+               "(Pack, Unpack, Reader.ReadWord, Reader.Read) and the grammar decoder PackSpec; the model is tied to the code by "
                "running the extracted model and packed.Pack/Unpack/Reader on the same inputs.")
 TRUSTED = ["model coq/Packed/Packed.v hand-written from internal/packed/packed.go; bufio.Reader is modelled as an "
-           "oracle for Buffered()>=9 (theorems quantify over all oracles); Reader.Read's word buffering is modelled "
-           "(read_calls) but its agreement theorem is not yet proved: Read is covered by the correspondence only"]
+           "oracle for Buffered()>=9, both in ReadWord's fast-path test and in Read's short-read test (two independent "
+           "oracle streams; the theorems C13_stream_agrees and C13_read_agrees quantify over all of them, and "
+           "C13_read_agrees also over all sequences of request sizes >= 1)"]
 MODELLED = ["bufio.Reader", "allocWords growth policy (only the resulting bytes are modelled)"]
 ASSUMPTIONS = ["bytes are 0..255; payload lengths < 2^31"]
 
@@ -26,9 +27,12 @@ def violates(run, case, impl, model):
 LEVEL_TEXT = ("Proof: for all word-aligned payloads unpack(pack x)=x on the model of Unpack and on an independent grammar "
               "decoder; for all inputs the one-shot decoder equals the grammar decoder (truncation is an error, nothing is "
               "invented); for all inputs and all fast/slow path choices the streaming ReadWord loop agrees with the one-shot "
-              "decoder; output <= 1024 x input. The model is tied to internal/packed by a differential run (extracted OCaml "
+              "decoder; for all inputs, all request-size sequences (each >= 1 byte), all fast-path and all short-read choices "
+              "the concatenation of what Reader.Read returns and its final error equal the one-shot decoder's output and "
+              "verdict (C13_read_agrees, fuel bound 2304*len+1); output <= 1024 x input. The model is tied to internal/packed by a differential run (extracted OCaml "
               "vs Pack/Unpack/Reader.Read/ReadWord) on structured, truncated and malformed inputs.")
 LEVEL_NOTE = ("Trusted: Coq kernel, extraction, harness; the model is hand-written (coq/Packed/Packed.v). bufio.Reader is an "
-              "oracle. Reader.Read's byte interface is checked by correspondence only.")
+              "oracle (Buffered() is a free boolean at every test; its value is never tied to the bytes actually buffered). "
+              "Reader.Read's byte interface is covered by theorem (coq/Packed/ReadCallProofs.v) and by the correspondence run.")
 TECHNIQUE = "Coq proof over an executable model + extracted-model/implementation differential run"
 DESIGN_REF = "DESIGN.md section 6, C13"
